@@ -91,6 +91,12 @@ def gen(rng, tier):
             steps.append({"op": k})
     memory = rng.random() < 0.2
     for st in steps:
+        if st["op"] == "delete" and rng.random() < 0.5:
+            # a result obtained before the delete, read after it (same handle)
+            st["deferred"] = rng.choice([{"m": "all_features", "args": [], "kw": {}}, {"m": "all_features", "args": [], "kw": {}},
+                                         {"m": "features_of_type", "args": [rng.choice(types)], "kw": {}},
+                                         {"m": "all_features", "args": [], "kw": {"strand": rng.choice(["+", "-"])}},
+                                         {"m": "all_features", "args": [], "kw": {"order_by": rng.choice(["start", "end", "featuretype"])}}])
         if st["op"] in ("update", "delete") and not memory and rng.random() < 0.25:
             st["via"] = "other_process"  # the write is made by another process while this handle stays open
     if memory:
@@ -350,6 +356,24 @@ def run(case):
                                         "kw": {"merge_strategy": st["strategy"], "make_backup": False}})
                     if st["strategy"] == "replace":
                         probes["replace_in_history"] = 1
+                elif k == "delete" and alive and st.get("deferred") and st.get("via") != "other_process" and not stale[0] and model.order:
+                    # result obtained, features deleted (among them the first stored one), result read: what is read must be the
+                    # answer of ONE state of the database - the one at the call or the one at the reading - never a blend
+                    dids = list(dict.fromkeys([model.order[0]] + [i for i in st["ids"] if i in model.feats]))
+                    model.delete(dids)
+                    dq = st["deferred"]
+                    r = call(node, {"op": "deferred_read", "h": "h", "ids": dids, "m": dq["m"], "args": dq["args"], "kw": dq["kw"]})
+                    probes["delete_in_history"] = 1
+                    if r["ok"]:
+                        probes["result_obtained_before_a_delete_read_after_it"] = 1
+                        if r["before"] != r["after"] and len(set(r["before"]) - set(r["after"])) > 1:
+                            probes["result_obtained_before_a_delete_that_removes_its_first_and_a_later_row"] = 1
+                        if r["got"] != r["after"] and r["got"] != r["before"]:
+                            V.append(viol("C11.filter", "%s(%r, %r) obtained before delete(%r) and read after it yields %r: neither the answer "
+                                          "before the delete %r nor the one after it %r" % (dq["m"], dq["args"], dq["kw"], dids, r["got"][:8],
+                                                                                            r["before"][:8], r["after"][:8]),
+                                          kind="deferred_read_blend", ordered="order_by" in dq["kw"]))
+                            break
                 elif k == "delete" and alive:
                     model.delete(st["ids"])
                     r = write_call(st, {"op": "delete", "h": "h", "ids": st["ids"], "form": "strs", "kw": {"make_backup": False}})
